@@ -158,7 +158,7 @@ $(B)/bin/creds_exec: $(B)/harness/creds_exec.o $(B)/shim/shim_creds.o $(LIB_OBJ)
 # threads harness: no shim (the interposition tables are not thread-safe); use VARIANT=tsan
 $(B)/bin/thr_exec: $(B)/harness/thr_exec.o $(LIB_OBJ)
 	@mkdir -p $(dir $@)
-	@$(CC) $(SAN) -o $@ $^ $(LDLIBS_REAL)
+	@$(CC) $(SAN) -o $@ $^ -Wl,--wrap=close $(LDLIBS_REAL)
 
 # relay: the tool itself built from the working tree, and the two-endpoint driver
 $(B)/bin/xcmrelay: $(RELAY_OBJ) $(REPO_UTIL_OBJ) $(LIB_OBJ)
